@@ -113,4 +113,5 @@ func Gen(run *vlib.Run, seed uint64, tier string) {
 	genCharset(run, r.Fork("charset"), tier)
 	genEncoding(run, r.Fork("encoding"), tier)
 	genFDSelect(run, r.Fork("fdselect"), tier)
+	genReal(run, r.Fork("real"), tier)
 }
